@@ -16,6 +16,7 @@ mod run;
 mod drv_random;
 mod drv_replay;
 mod drv_sat;
+mod drv_real;
 
 use serde_json::Value;
 
@@ -86,6 +87,17 @@ fn main()
                 "parse" => drv_sat::parse_cases(n, random, seed),
                 _ => drv_sat::persist_cases(n, seed),
             };
+            run::write_lines(&out, &recs);
+            println!("{}", serde_json::json!({"records" : recs.len()}));
+        },
+        "realfs" | "serve" =>
+        {
+            let out = arg(&args, "--out", "records.ndjson");
+            let n : usize = arg(&args, "--n", "5").parse().unwrap();
+            let seed : u64 = arg(&args, "--seed", "1").parse().unwrap();
+            let bin = arg(&args, "--bin", "/verif/harness/target/release/ruler_real");
+            let base = arg(&args, "--dir", "/verif/work/realfs");
+            let recs = if cmd == "realfs" { drv_real::real_clean_build(&bin, &base, n, seed) } else { drv_real::real_serve(&bin, &base, n, seed) };
             run::write_lines(&out, &recs);
             println!("{}", serde_json::json!({"records" : recs.len()}));
         },
